@@ -345,10 +345,10 @@ func (q *Queue) run(highestKey uint64) {
 				stats.Add(fifoSize, -int64(len(keysToDelete)))
 				return nil
 			})
-			// Ensure cursor moves past deleted range
-			if err == nil && nextFrom != 0 && nextFrom <= req.idx {
-				nextFrom = req.idx + 1
-			}
+			// The read position needs no adjustment: every key at or below req.idx is gone
+			// from the bucket, so the next Seek from nextFrom lands on the first key above
+			// it. Moving nextFrom past req.idx would hide items enqueued later with an
+			// index in (highestKey, req.idx].
 			req.respChan <- err
 
 			if err == nil {
